@@ -106,9 +106,10 @@ func splitManifest(manifest []byte) ([][]byte, bool) {
 		i2 := bytes.Index(manifest, []byte("\n\n"))
 		var idx int
 		switch {
-		case i1 >= 0:
+		case i1 >= 0 && (i2 < 0 || i1 < i2):
 			idx = i1 + 4
 		case i2 >= 0:
+			// also when a later section uses the other line ending
 			idx = i2 + 2
 		default:
 			// If there is not a proper 2x line ending,
